@@ -76,6 +76,9 @@ func (e *Engine) verifyFunction(fn *ssa.Function) (rep *FnReport) {
 		if _, ok := a.T.Underlying().(*types.Slice); ok && a.Term != "" {
 			c.smt.assume(or(eq(app("sl_base", a.Term), "0"), sel(al, app("sl_base", a.Term))), "parameter slice is allocated")
 		}
+		if _, ok := a.T.Underlying().(*types.Struct); ok && a.Term != "" {
+			c.closedHeap(st, a.T, a.Term, 0) // references inside a struct parameter are allocated
+		}
 	}
 	c.smt.assume(not(sel(al, "0")), "nil is not an allocated object")
 	// function-type contract (e.g. the lexer's stateFn) and the identity of this function value
